@@ -343,6 +343,51 @@ def runSchedOld (walOn : Bool) (progs : List ThreadProgram) (sched : List Nat) :
 
 def quiescent (sys : Sys) : Bool := sys.threads.all (fun th => th.ops.isEmpty)
 
+/-! #### NOT the code: `delete_durable` that decides OUTSIDE the log mutex whether to log
+
+    A variant step machine for one realistic regression of `SlabRouter::delete_durable` ("do not log
+    no-op deletes"): `let present = self.exists(key)` is evaluated BEFORE `Mutex::lock`, the log
+    records are appended only if `present` was true, the in-memory `self.delete(key)` under the
+    mutex stays unconditional.  A thread that is granted its `store.delete_durable` step while
+    another thread holds the mutex has therefore already made its observation when it blocks; it
+    logs (or not) by that stale observation once it gets the mutex.  Everything else is `step`.
+    Used only by `Props.delete_skip_if_absent_witness` (the property is lost) and replayed by
+    `corr_kv` on the real mutex (where the outcome must be the one of `step`). -/
+
+/-- a system of the variant: per thread waiting for the log mutex inside `delete_durable`, the
+    presence of the key it observed before it blocked -/
+structure SysV where
+  sys : Sys
+  seen : List (Nat × Bool) := []
+  deriving Repr
+
+/-- one pick of thread `t` on the exists-before-mutex variant -/
+def stepDelSkipIfAbsent (v : SysV) (t : Nat) : SysV :=
+  match v.sys.threads[t]? with
+  | none => v
+  | some th =>
+    match th.ops, th.pc with
+    | .delD k :: _, .start =>
+      if k.cls = .cache ∨ v.sys.store.walOn = false then { v with sys := step v.sys t } else
+      -- `let present = self.exists(key);` (kept from the first grant if the thread then blocked)
+      let present := match aget v.seen t with
+        | some b => b
+        | none => existsNow v.sys.store k
+      -- `self.wal.as_ref().map(Mutex::lock)`: blocks while another thread is between log and apply
+      if v.sys.threads.any Thread.inCS then { v with seen := aset v.seen t present } else
+      -- `wal_guard.as_mut().filter(|_| present)`: the records are appended only if `present`
+      let s' := if present then logDelete v.sys.store k else v.sys.store
+      { sys := { store := s',
+                 threads := v.sys.threads.set t { th with pc := .delDAfterLog, inv := v.sys.clock },
+                 hist := v.sys.hist, clock := v.sys.clock + 1,
+                 trace := v.sys.trace ++ [(t, .delD k, .start)] },
+        seen := aerase v.seen t }
+    | _, _ => { v with sys := step v.sys t }
+
+/-- interpret an interleaving on the exists-before-mutex variant of `delete_durable` -/
+def runSchedDelSkipIfAbsent (walOn : Bool) (progs : List ThreadProgram) (sched : List Nat) : Sys :=
+  (sched.foldl stepDelSkipIfAbsent { sys := initSys walOn progs }).sys
+
 /-! #### "no two operations on the same key overlap in time", stated over the schedule -/
 
 /-- the key of the operation thread `th` is INSIDE of: it has taken the first atomic step of its
@@ -523,5 +568,13 @@ def durableOrderProgs : List ThreadProgram :=
 /-- A logs, B logs, B applies, A applies (executable on `stepOld` only: under the log mutex B does
     not move until A has applied) -/
 def durableOrderSched : List Nat := [0, 1, 1, 0]
+
+/-- `put_durable user:1` racing `delete_durable user:1`, the key absent at the start -/
+def putDeleteAbsentProgs : List ThreadProgram :=
+  [[.putD kP1 ⟨1, .none⟩], [.delD kP1]]
+
+/-- A logs its set (holds the mutex); B enters `delete_durable` and waits for the mutex; A applies
+    and releases; B logs; B applies -/
+def putDeleteAbsentSched : List Nat := [0, 1, 0, 1, 1]
 
 end Neumann.KV
